@@ -24,21 +24,21 @@ type boundVar struct {
 
 // Env is the context in which a contract expression is translated.
 type Env struct {
-	vc     *VC
-	fr     *Frame
-	st     *State
-	old    *State
-	names  map[string]Val
-	bound  []boundVar
-	hash   map[string]Val
+	vc          *VC
+	fr          *Frame
+	st          *State
+	old         *State
+	names       map[string]Val
+	bound       []boundVar
+	hash        map[string]Val
 	paramsFirst bool
-	pure   bool
-	loopAt map[string]*State
-	cloVal *Val // closure value whose captured variables are visible by name
-	cloFn  *ssa.Function
-	depth  int
-	binds  map[string]*ssa.Function
-	inPattern bool
+	pure        bool
+	loopAt      map[string]*State
+	cloVal      *Val // closure value whose captured variables are visible by name
+	cloFn       *ssa.Function
+	depth       int
+	binds       map[string]*ssa.Function
+	inPattern   bool
 }
 
 func (e *Env) with(st *State) *Env {
